@@ -15,6 +15,8 @@ from __future__ import annotations
 
 import asyncio
 
+from .core import _Spinning as _HarnessAbort  # raised by the per-case watchdog: must never be swallowed as a protocol error
+
 
 def _sockname(peername):
     """IPv6 socket addresses are 4-tuples (host, port, flowinfo, scope_id) in asyncio, IPv4 ones 2-tuples."""
@@ -90,7 +92,7 @@ class FakeTransport(asyncio.Transport):
         if self.protocol is not None:
             try:
                 self.protocol.connection_lost(exc)
-            except (SystemExit, KeyboardInterrupt):
+            except (SystemExit, KeyboardInterrupt, _HarnessAbort):
                 raise
             except BaseException as e:
                 # asyncio runs connection_lost from call_soon: an exception is handed to the loop's exception
@@ -112,7 +114,7 @@ class FakeTransport(asyncio.Transport):
             return False
         try:
             self.protocol.data_received(data)
-        except (SystemExit, KeyboardInterrupt):
+        except (SystemExit, KeyboardInterrupt, _HarnessAbort):
             raise
         except BaseException as exc:
             self.events.append(("fatal", repr(exc), self.loop.time()))
@@ -276,7 +278,7 @@ class FakeTcp(asyncio.Transport):
         try:
             if self.protocol is not None:
                 self.protocol.connection_lost(exc)
-        except (SystemExit, KeyboardInterrupt):
+        except (SystemExit, KeyboardInterrupt, _HarnessAbort):
             raise
         except BaseException as e:
             self.events.append(("callback-error", repr(e), self.loop.time()))
@@ -307,7 +309,7 @@ class FakeTcp(asyncio.Transport):
                         break
             else:
                 proto.data_received(data)
-        except (SystemExit, KeyboardInterrupt):
+        except (SystemExit, KeyboardInterrupt, _HarnessAbort):
             raise
         except BaseException as exc:
             self.events.append(("fatal", repr(exc), self.loop.time()))
